@@ -195,6 +195,24 @@ CLAIMS: dict[str, dict[str, str]] = {
         "note": NOTE,
         "technique": "symbolic key-template extraction + locale-literal closure, placeholder and direction-pairing rules",
     },
+    "C19": {
+        "text": "Static shape checking of the generator Interval.range: loop-invariant receiver of every step (no "
+                "drift), multiplier i starting at and advanced by amount, (add,<=)/(subtract,>=) pairing selected by "
+                "`not absolute and invert`, candidate compared with the end before being yielded, yield/compute/"
+                "advance order, __iter__ and __contains__. Rename-invariant; restructurings with the same operators "
+                "and calls are UNVERIFIED. Finiteness for amount <= 0 is outside the quantifier.",
+        "note": NOTE,
+        "technique": "loop-shape and loop-invariance (information-flow) rules with reference-shape triage",
+    },
+    "C20": {
+        "text": "Static rule checking: component completeness and unit weights of both scalars in Time.diff (linear "
+                "form over hour/minute/second/microsecond), operand direction, abs class selection; mirror shape of "
+                "add/subtract on the UTC epoch carrier; day-component guard and forwarding of the timedelta helpers; "
+                "operator guards/routing; closest/farthest must order by a non-truncating quantity with the right "
+                "comparison; reconstruction fidelity of the operand copies.",
+        "note": NOTE,
+        "technique": "component-completeness/unit-weight linear forms, sibling mirror rule, lossy-projection lint",
+    },
 }
 
 NOT_APPLICABLE: dict[str, str] = {}
